@@ -106,6 +106,12 @@ func deviations(r *rand.Rand, ver version.Version) []deviation {
 	}
 	// Cache-Control directive subsets (status made non-default-cacheable separately, see "status")
 	dirs := []string{"no-store", "private", "public", "max-age=1", "s-maxage=1", "no-cache", "must-revalidate", "foo=bar"}
+	// quoted-string arguments in every degenerate form (the comma inside quotes splits the directive for a parser that
+	// does not track quotes - the specification splits the same way, see Sxg!Directives)
+	for _, q := range []string{`ext=","`, `ext="`, `ext=""`, `max-age="5"`, `private="set-cookie"`, `"`, `=`, `=""`, `ext="a, no-store"`, `ext=", public`} {
+		q := q
+		add("cc quoted "+q, func(sc *scenario) { sc.rawResp["Cache-Control"] = []string{q} }, nil)
+	}
 	for mask := 1; mask < 1<<uint(len(dirs)); mask++ {
 		var sel []string
 		for i, d := range dirs {
@@ -149,6 +155,17 @@ func deviations(r *rand.Rand, ver version.Version) []deviation {
 		add(v.n, func(sc *scenario) { sc.sp.vURL = v.u }, nil)
 	}
 	add("no content-type", func(sc *scenario) { sc.sp.resph.Del("Content-Type") }, nil)
+	// the integrity parameter is not signed: an exchange protected CONSISTENTLY with the other drafts' scheme and naming that
+	// scheme in its integrity parameter is still not an exchange of this version
+	swapIntegrity := func(e *sxg.Exchange) {
+		if e.Version == version.Version1b1 {
+			e.SignatureHeaderValue = strings.Replace(e.SignatureHeaderValue, "integrity=\"mi-draft2\"", "integrity=\"digest/mi-sha256-03\"", 1)
+		} else {
+			e.SignatureHeaderValue = strings.Replace(e.SignatureHeaderValue, "integrity=\"digest/mi-sha256-03\"", "integrity=\"mi-draft2\"", 1)
+		}
+	}
+	add("foreign MI scheme, consistent", func(sc *scenario) { sc.sp.foreignMI = true }, swapIntegrity)
+	add("foreign MI scheme, own integrity id", func(sc *scenario) { sc.sp.foreignMI = true }, nil)
 	add("integrity other version", nil, func(e *sxg.Exchange) {
 		if e.Version == version.Version1b1 {
 			e.SignatureHeaderValue = strings.Replace(e.SignatureHeaderValue, "integrity=\"mi-draft2\"", "integrity=\"digest/mi-sha256-03\"", 1)
